@@ -1,4 +1,5 @@
-"""Sibling of D17 (still open after fix 2349ac2): a SimPy process whose generator RAISES before its
+"""D19 (FIXED in /repo by commit 1f09363; before the fix this printed "env.run() raised Boom()").
+Sibling of D17: a SimPy process whose generator RAISES before its
 first yield never fires its process event; the exception leaves Process._run_payload instead
 (the first `generator.send(None)` only catches StopIteration), so the environment scope fails even when
 another process is waiting for this one and would handle the failure.
